@@ -36,10 +36,11 @@ def run(ctx, rep, tier):
     # goto kinds per context
     goto_ctx = {"feed": {}, "end": {}}   # kind -> example
     for tb in tbs:
-        c = "end" if tb.get("FROM_END") else "feed"
+        ctxs = ["end"] if tb.get("FROM_END") is True else (["feed"] if tb.get("FROM_END") is False else ["feed", "end"])
         for e in tb.events:
             if e.kind == "GOTO":
-                goto_ctx[c].setdefault(e.a, (TB, tb.valuation_str(), e.text.strip()))
+                for c in ctxs:
+                    goto_ctx[c].setdefault(e.a, (TB, tb.valuation_str(), e.text.strip()))
     actx = action_contexts(ctx)
     for cl in classes:
         fp = E.enumerate(ACT, classes={"action": cl})
@@ -66,8 +67,8 @@ def run(ctx, rep, tier):
     for tb in tbs:
         for e in tb.events:
             if e.kind == "LABEL":
-                c = "end" if tb.get("FROM_END") else "feed"
-                label_ctx[c].setdefault(e.a, []).append(tb.roles)
+                for c in (["end"] if tb.get("FROM_END") is True else (["feed"] if tb.get("FROM_END") is False else ["feed", "end"])):
+                    label_ctx[c].setdefault(e.a, []).append(tb.roles)
     for c in ("feed", "end"):
         for kind, (where, valstr, text) in sorted(goto_ctx[c].items()):
             rep.check(kind in label_ctx[c], "C11.a", where.split(":")[0], f"{c}(): goto {kind}",
@@ -324,9 +325,11 @@ def run(ctx, rep, tier):
     rep.rule("C11.e", "end() never mentions `start`; `inval` is supplied by a #define / #undef pair around its body")
     n_e = 0
     for tb in tbs:
-        if tb.get("FROM_END") is True:
+        if tb.get("FROM_END") is not False:     # end() context, or a path that never asked (it is then emitted into end() as well)
             n_e += 1
             bad = [l for l in tb.lines() if re.search(r"\bstart\b|\bend\b", re.sub(r"\[\[.*?\]\]", "", l)) and not l.strip().startswith("//")]
+            if tb.get("FROM_END") is None and tb.get("FALL") is True:
+                continue   # fallthrough paths never touch the pointer in either context (checked by their row)
             rep.check(not bad, "C11.e", TB, "from_end: " + tb.valuation_str(), f"end()-context transition body mentions start/end: {bad}")
     fp = E.enumerate(END)
     for p in fp.paths:
@@ -433,3 +436,23 @@ def run(ctx, rep, tier):
 
 def fp_lines(fp, p):
     return [i for i in flatten_items(fp.lines(p)) if isinstance(i, Line)]
+
+
+def _shared(ctx, rep, tier):
+    from .shared import delegate
+    model = ctx.model
+    rep.rule("C11.k", "a state is emitted once: adopting another machine's states never duplicates a state already present (duplicate case bodies duplicate their labels)")
+    ok = model.has("DFA.append_after", "for state in chained_dfa.states:\n    if state not in self.states:\n        self.add(state)")
+    rep.check(ok, "C11.k", "DFA.append_after", "states of the chained machine are adopted only if not already present",
+              "append_after adopts the chained machine's states unconditionally: a body shared by several case labels is emitted once per label, and a label inside it "
+              "(skipaction_<id>) is then defined twice - 'duplicate label'")
+    delegate(ctx, rep, tier, "C13", ("C13.e",), "C11.j", "names interpolated into C identifiers are resolved strings: identifier-kind macro arguments are bound to their entity at the call",
+             where="MacroArgument.should_early_bind", pred=lambda v: "early" in v.construct or "early" in v.message)
+
+
+_run0 = run
+
+
+def run(ctx, rep, tier):
+    _run0(ctx, rep, tier)
+    _shared(ctx, rep, tier)
